@@ -76,7 +76,7 @@ impl CaoLangAllocator {
         let allocated = s + self.allocated.fetch_add(s, Ordering::Relaxed);
         #[cfg(feature = "verif-hooks")]
         if allocated > self.limit.load(Ordering::Relaxed) {
-            (*self.verif.get()).on_fail(l.size(), s);
+            (*self.verif.get()).on_fail(l.size(), s, self.allocated.load(Ordering::Relaxed));
         }
         if allocated > self.limit.load(Ordering::Relaxed) {
             return Err(AllocError::OutOfMemory);
@@ -106,7 +106,7 @@ impl CaoLangAllocator {
         }
         let ptr = alloc(l);
         #[cfg(feature = "verif-hooks")]
-        (*self.verif.get()).on_alloc(ptr as usize, l.size(), s);
+        (*self.verif.get()).on_alloc(ptr as usize, l.size(), s, self.allocated.load(Ordering::Relaxed));
         Ok(NonNull::new(ptr).unwrap())
     }
 
@@ -117,7 +117,7 @@ impl CaoLangAllocator {
         let s = l.size() + l.align();
         self.allocated.fetch_sub(s, Ordering::Relaxed);
         #[cfg(feature = "verif-hooks")]
-        (*self.verif.get()).on_dealloc(p.as_ptr() as usize, l.size(), s);
+        (*self.verif.get()).on_dealloc(p.as_ptr() as usize, l.size(), s, self.allocated.load(Ordering::Relaxed));
         dealloc(p.as_ptr(), l);
     }
 }
